@@ -30,7 +30,11 @@ fn guarded(f: impl FnOnce() -> bool) -> char {
 
 pub fn battery(s: &McState) -> String {
     let d = s.depth;
-    let l = s.current_run_trace().len() as u64;
+    // the current run's part of the trace, by the documentation: from the latest McStarted entry on.  Computed here
+    // and not with `McState::current_run_trace`, which is code under test
+    let cur_start = s.trace.iter().rposition(|e| matches!(e, LogEntry::McStarted { .. })).unwrap_or(0);
+    let cur = &s.trace[cur_start..];
+    let l = cur.len() as u64;
     let mut procs: Vec<(String, String)> = vec![];
     for (n, ns) in &s.node_states {
         for p in ns.proc_states.keys() {
@@ -57,7 +61,7 @@ pub fn battery(s: &McState) -> String {
         .flat_map(|ns| ns.proc_states.values().map(|e| e.sent_message_count))
         .max()
         .unwrap_or(0);
-    let tf = s.current_run_trace().iter().filter(|e| e.is_mc_timer_fired()).count() as u64;
+    let tf = cur.iter().filter(|e| e.is_mc_timer_fired()).count() as u64;
     let dr = s.trace.iter().filter(|e| e.is_mc_message_dropped()).count() as u64;
     let pnames: Vec<String> = procs.iter().map(|x| x.1.clone()).collect();
     let fired_by = |e: &LogEntry, q: &String| matches!(e, LogEntry::McTimerFired { proc, .. } if proc == q);
